@@ -46,7 +46,7 @@ Lemma ck_old s e i : i < length (conss s) -> ck (getc (step repaired s e) i) = c
 Proof.
   intros Hl. pose proof (f_equal v_ck (step_vw s e)) as V. cbn [v_ck vw] in V.
   unfold getc. change CKWait with (ck cons0). rewrite <- !(map_nth ck). rewrite V.
-  destruct e as [c0|k|r|a|g|a|g en|g v hr er|g|k|c0|c0|c0|c0 res|c0]; cbn [v_ck vw vw_addref vw_newcons vw_cancel]; try reflexivity.
+  destruct e as [c0|k|r|a|g|a|g en|g v hr er|g|k|c0|c0|c0|c0 res|c0|c0]; cbn [v_ck vw vw_addref vw_newcons vw_cancel]; try reflexivity.
   - destruct (nth_error (relacts s) a) as [x|]; [destruct (ra_pc x)|]; reflexivity.
   - rewrite app_nth1 by (now rewrite map_length). reflexivity.
   - destruct (nth_error (conss s) c0) as [x|]; [destruct (ww_firepc x) as [[|]|]|]; reflexivity.
